@@ -1,4 +1,4 @@
-add("C14", "checks/c14_itoa.c", ["default-plain", "default-asan", "c89-plain", "c89os-plain"], ["default-plain", "default-asan", "c89-plain", "os-plain", "c99-plain", "c89os-plain"],
+add("C14", "checks/c14_itoa.c", ["default-plain", "default-asan", "c89-plain", "c89os-plain", "isa-plain"], ["default-plain", "default-asan", "c89-plain", "os-plain", "c99-plain", "c89os-plain", "isa-plain", "mcu-plain", "mcu89-plain"],
     "cases = (function, value, base, sign, buffer length) calls of the six integer formatters compared with an independent "
     "formatter; sweep32 enumerates 32-bit values in blocks of 2^16 (all 2^32 in thorough; 32 boundary blocks + ~256 seed-chosen "
     "blocks + 32 values of every other block in quick), lensweep runs every buffer length 0..70 on exact-size heap cells, wide64 "
